@@ -99,15 +99,17 @@ def scenario(ctx, rng, j):
     while sum(map(len, fields.values())) > 900:
         k = max(fields, key=lambda x: len(fields[x]))
         fields[k] = fields[k][:len(fields[k]) // 2]
-    allowed = rng.choice((0x00, 0x01, 0x03, 0x0f, 0xf0, 0x7f,
-                          rng.getrandbits(8) & 0x7f))
+    allowed = rng.choice((0x00, 0x01, 0x03, 0x0f, 0xf0, 0x7f, 0x80,
+                          rng.getrandbits(8) & 0x7f, rng.getrandbits(8)))
+    if allowed == 0xff:
+        allowed = 0xfe
     sub = [f for f in range(256) if not (f & ~allowed & 0xff)]
     f = rng.choice(sub) if rng.random() < 0.7 else 0
     if sigmsg.message(fields, f) == b'' and rng.random() < 0.8:
         f = 0
     # minimal excess: a permitted flag plus exactly one non-permitted bit
     # (rotating over the bits), so a mask that is one bit too wide is seen
-    free = [b for b in range(7) if not (allowed >> b) & 1]
+    free = [b for b in range(8) if not (allowed >> b) & 1]
     fbad = (f | (1 << free[j % len(free)])) if free else None
     if fbad == 0xff:
         fbad = None
